@@ -295,6 +295,14 @@ pub fn offset_oracle(c: &Offset) -> Verdict {
         Ok(d) => ensure!(count(d) == want, "from_str({:?}) = {}, want {}", txt, count(d), want),
         Err(e) => return Verdict::Fail(format!("from_str({:?}) fails: {:?}", txt, e)),
     }
+    // the bare hours [+-]HH (and [+-]H): whether they are accepted is not documented, but an accepted one denotes whole hours
+    for short in [format!("{}{:02}", if c.neg { '-' } else { '+' }, c.h), format!("{}{}", if c.neg { '-' } else { '+' }, c.h % 10)] {
+        let hours = if short.len() == 3 { c.h } else { c.h % 10 } as i128;
+        let want = if c.neg { -hours } else { hours } * NS_H;
+        if let Ok(d) = lib!(Duration::from_str(&short)) {
+            ensure!(count(d) == want, "from_str({:?}) is accepted and gives {}, want {} (whole hours)", short, count(d), want);
+        }
+    }
     Verdict::Pass(if c.s.is_some() { "with-seconds" } else { "hh:mm" }, true)
 }
 
